@@ -6,6 +6,7 @@ G2 reference models are built only by the copy constructor, from the annotation'
 G3 no in-place mutation can reach a reference model (which aliases the annotation's exon list)
 """
 import ast
+import re
 
 from ..engine.program import AnalysisError, dotted, src, walk_no_nested, call_name, enclosing_function, enclosing_stmt
 from ..engine import flow
@@ -73,15 +74,38 @@ def g1(prog, ctx):
     ctx.ok("G1", "%s:%d" % (TP, ap.lineno), "model index registered in %s only after validate_exons passed" % registry)
     # every write of a transcript / exon line reads models only through the registry
     writes = [c for c in walk_no_nested(f) if isinstance(c, ast.Call) and src(c.func) == "self.out_gff.write"]
+    # the variable holding the model being printed: assigned from storage[<index>] outside the validating loop
+    model_vars = {s_.targets[0].id for s_ in walk_no_nested(f) if isinstance(s_, ast.Assign) and isinstance(s_.targets[0], ast.Name)
+                  and isinstance(s_.value, ast.Subscript) and src(s_.value.value) == storage and not any(l_ is loop for l_ in flow.enclosing_loops(s_))}
     n = 0
     for w in writes:
         st = w
         while not isinstance(st, ast.stmt):
             st = st._parent
         loops_w = flow.enclosing_loops(st)
-        names = {x.id for x in ast.walk(w) if isinstance(x, ast.Name)}
-        line_vars = set()
-        if "model" in names or any(v in names for v in ("transcript_line", "prefix_columns", "suffix_columns")):
+        # names the written text is computed from: reaching definitions through plain local assignments only (no tables, no control
+        # dependence); a loop variable is where the chase stops
+        from ..engine.dataflow import local_defs, reaching_defs
+        ldefs = local_defs(f)
+        touched, seen_at = set(), set()
+        todo_ = [(x.id, st) for a_ in w.args for x in ast.walk(a_) if isinstance(x, ast.Name)]
+        elem_hit = False
+        while todo_:
+            nm_, at_ = todo_.pop()
+            if (nm_, id(at_)) in seen_at:
+                continue
+            seen_at.add((nm_, id(at_)))
+            touched.add(nm_)
+            if nm_ not in ldefs:
+                continue
+            for kind_, val_, dst_ in reaching_defs(f, nm_, at_, ldefs):
+                if kind_ == "assign":
+                    if isinstance(val_, ast.Subscript) and src(val_.value) == storage:
+                        elem_hit = True
+                    todo_.extend((x.id, dst_) for x in ast.walk(val_) if isinstance(x, ast.Name))
+                elif kind_ == "loop" and (storage in src(val_)):
+                    elem_hit = True
+        if elem_hit:
             # must be inside `for model_index in registry[gene_id]` with model = storage[model_index]
             ok_loop = any(isinstance(l, ast.For) and registry in src(l.iter) for l in loops_w)
             if not ok_loop:
@@ -93,7 +117,7 @@ def g1(prog, ctx):
             ctx.ok("G1", "%s:%d" % (TP, w.lineno), "gene line (coordinates from validated models + annotation gene regions)")
             n += 1
     # the model used for printing is storage[index from the registry]
-    mdefs = [s for s in walk_no_nested(f) if isinstance(s, ast.Assign) and src(s.targets[0]) == "model" and storage in src(s.value)]
+    mdefs = [s for s in walk_no_nested(f) if isinstance(s, ast.Assign) and isinstance(s.targets[0], ast.Name) and s.targets[0].id in model_vars]
     if len(mdefs) != 1 or not isinstance(mdefs[0].value, ast.Subscript):
         ctx.fail("G1", f, f._qualname, "model = storage[index]", "printed model is not looked up through the validated index")
     # gene coordinates: only max_range over validated transcripts / annotation gene regions
@@ -105,7 +129,7 @@ def g1(prog, ctx):
     # validate_exons itself: sortedness and 0 < start <= end
     v = prog.func(TP, "validate_exons")
     vt = src(v)
-    if "sorted(" not in vt or "0 < x[0] <= x[1]" not in vt:
+    if "sorted(" not in vt or not re.search(r"0 < (\w+)\[0\] <= \1\[1\]", vt):
         ctx.fail("G1", v, "validate_exons", vt[-90:], "validate_exons no longer checks sortedness and 0 < start <= end of every exon")
     else:
         ctx.ok("G1", "%s:%d" % (TP, v.lineno), "validate_exons: sorted and 0 < start <= end for all exons")
@@ -181,9 +205,12 @@ def g2(prog, ctx):
     ce = prog.func(TP, "create_extended_storage")
     ref_loop = [l for l in walk_no_nested(ce) if isinstance(l, ast.For) and "all_isoforms_exons" in src(l.iter)]
     nov_loops = [l for l in walk_no_nested(ce) if isinstance(l, ast.For) and src(l.iter) == ce.args.args[3].arg]
+    # the list that is returned (first element of the returned pair)
+    out_lists = {src(r.value.elts[0]) for r in walk_no_nested(ce) if isinstance(r, ast.Return) and isinstance(r.value, ast.Tuple) and r.value.elts}
+    outl = out_lists.pop() if len(out_lists) == 1 else "?"
     okref = len(ref_loop) == 1 and len(ref_loop[0].body) == 1 and "from_reference_transcript(" in src(ref_loop[0].body[0]) \
-        and "all_models.append" in src(ref_loop[0].body[0])
-    oknov = nov_loops and all(len(l.body) == 1 and src(l.body[0]) == "all_models.append(%s)" % src(l.target) for l in nov_loops)
+        and (outl + ".append") in src(ref_loop[0].body[0])
+    oknov = nov_loops and all(len(l.body) == 1 and src(l.body[0]) == "%s.append(%s)" % (outl, src(l.target)) for l in nov_loops)
     if not okref:
         ctx.fail("G2", ce, ce._qualname, "reference loop", "extended storage does not append one reference model for every annotated isoform")
     else:
@@ -204,12 +231,22 @@ def g2(prog, ctx):
             ctx.ok("G2", "%s:%d" % (TP, p.exit_node.lineno), "return path includes all novel models (%s)" % p.describe()[:60])
     # the novel models handed over are exactly the non-known models printed to transcript_models.gtf
     cm = prog.func("src/dataset_processor.py", "construct_models_in_parallel")
-    nm = [st for st in walk_no_nested(cm) if isinstance(st, ast.Expr) and "novel_model_storage.append(" in src(st)]
+    from ..engine import argswap
+    ces = [c for c in walk_no_nested(cm) if isinstance(c, ast.Call) and (call_name(c) or "").split(".")[-1] == "create_extended_storage"]
+    nlist = None
+    if len(ces) == 1:
+        b_ = argswap.bind_args(ces[0], ce)
+        nlist = src(b_[ce.args.args[3].arg]) if ce.args.args[3].arg in b_ else None
+    nm = [st for st in walk_no_nested(cm) if isinstance(st, ast.Expr) and nlist and (nlist + ".append(") in src(st)]
     okn = False
     if len(nm) == 1:
-        facts = [(src(t), p) for t, p in flow.guard_facts(nm[0], stop=cm)]
-        okn = ("m.transcript_type != TranscriptModelType.known", True) in facts and \
-            any(isinstance(l, ast.For) and src(l.iter) == "model_constructor.transcript_model_storage" for l in flow.enclosing_loops(nm[0]))
+        lps = [l for l in flow.enclosing_loops(nm[0]) if isinstance(l, ast.For) and src(l.iter).endswith(".transcript_model_storage")]
+        if lps and src(nm[0].value.args[0]) == src(lps[-1].target):
+            lv = src(lps[-1].target)
+            okn = any(isinstance(t, ast.Compare) and len(t.ops) == 1 and src(t.left) == lv + ".transcript_type"
+                      and src(t.comparators[0]) == "TranscriptModelType.known"
+                      and ((isinstance(t.ops[0], ast.NotEq) and p) or (isinstance(t.ops[0], ast.Eq) and not p))
+                      for t, p in flow.guard_facts(nm[0], stop=cm))
     if not okn:
         ctx.fail("G2", cm, cm._qualname, "novel_model_storage", "novel models for the extended annotation are not exactly the non-known "
                  "models of the constructor's final storage")
@@ -247,8 +284,13 @@ def g3(prog, ctx):
     for m, q, f, n, (kind, t) in sites:
         recv = src(t.value if kind != "mutator-call" else t.func.value)
         base = recv.split(".")[0].split("[")[0]
-        if kind == "field-store" and base in ("self", "gene_info", "read_assignment", "assignment", "alignment_info", "a"):
-            continue       # not a TranscriptModel field (GeneInfo / ReadAssignment strands)
+        if kind == "field-store" and t.attr == "strand":
+            # `.strand` also exists on read assignments and gene records: it concerns a transcript model only if the same variable
+            # is used as one in this function (exon_blocks / transcript_type / transcript_id / intron_path)
+            as_model = any(isinstance(x, ast.Attribute) and isinstance(x.value, ast.Name) and x.value.id == base
+                           and x.attr in ("exon_blocks", "transcript_type", "transcript_id", "intron_path") for x in walk_no_nested(f))
+            if base in ("self", "cls") or not as_model:
+                continue
         if kind == "field-store" and f.name in ("__init__", "from_reference_transcript", "from_models", "from_model", "from_region", "deserialize"):
             continue
         checked += 1
@@ -318,7 +360,8 @@ def g4(prog, ctx):
     ctx.floor("G4", "non-zero returns of count_score", n, 1)
     # merging happens only above a positive threshold
     j = prog.func(GMC, "TranscriptToGeneJoiner.join_transcripts")
-    if not any(isinstance(x, ast.Compare) and "self.scores[best_gene_pair]" in src(x.left) and isinstance(x.ops[0], ast.Lt) for x in walk_no_nested(j)):
+    if not any(isinstance(x, ast.Compare) and isinstance(x.left, ast.Subscript) and src(x.left.value) == "self.scores" and isinstance(x.ops[0], ast.Lt)
+               for x in walk_no_nested(j)):
         ctx.fail("G4", j, j._qualname, "threshold", "join_transcripts no longer stops at a positive score threshold")
     else:
         ctx.ok("G4", "%s:%d" % (GMC, j.lineno), "genes merged only for scores above a positive threshold")
